@@ -272,7 +272,7 @@ PLANS = {
     ),
     'C20': dict(
         module='RucteProps.C20',
-        theorems=['Ructe.C20.static_name_total', 'Ructe.C20.static_name_never_wrong', 'Ructe.C20.static_name_missing', 'Ructe.C20.pinned_counterexample'],
+        theorems=['Ructe.C20.static_name_total', 'Ructe.C20.static_name_never_wrong', 'Ructe.C20.static_name_missing', 'Ructe.C20.pinned_counterexample', 'Ructe.C20.sass_css_added'],
         runs=[dict(suite='sass', features=['sass'], n=dict(quick=150, thorough=3000), projection='identity', tags=['C20'])],
         correspondence='what static_name("f") evaluates to inside add_sass_file (recovered from the published name of the compiled CSS) or the build error, vs Ructe.staticName on get_names() before the call',
         rule='sets of 1..6 previously added files from 30 names (dashes, dots, underscores, leading digits, spaces, every punctuation byte rsass accepts in a string, non-ASCII letters), added through add_file and add_file_data; one scss per reference; references to every member, to non-members and to a name never used; non-trivial = distinct queried names',
